@@ -4,6 +4,7 @@ import GSProofs.C24
 import GSProofs.Lemmas.LoaderKahn
 import GSProofs.Lemmas.LoaderSched
 import GSProofs.Lemmas.LoaderComplete
+import GSProofs.Lemmas.LoaderReplay
 import GS.Model.Responder
 /-!
 # C02 — A single request retrieves every block that either peer can supply
@@ -17,17 +18,22 @@ import GS.Model.Responder
 Status of this file (see `STATUS.md`):
 
 * proved, full strength in their region: `local_complete` (the requestor's own store covers the
-  traversal) and `complete_remote_start` (the requestor does not hold the root, so there is no
+  traversal), `complete_remote_start` (the requestor does not hold the root, so there is no
   locally loaded prefix: against the honest response the loader's answers are exactly the reference
-  traversal `refTrav`, every fetched block stored) — for all well-formed link trees and stores;
-  `stored`; `still_on_iff` / `pathtracker_sibling` (repaired path tracker);
-  order independence `kahn_schedule` (whole interleavings) from `kahn_done` / `kahn_parked`.
+  traversal `refTrav`, every fetched block stored) and `complete_prefix` (the requestor holds the
+  root and has loaded a prefix of `N ≥ 1` links locally before its first miss: the verifier replays
+  the traversal record against the honest response for skip `N`, then the answers continue the
+  reference traversal; hypotheses = the negation of the two known-finding classes) — for all
+  well-formed link trees and stores; `stored`; `still_on_iff` / `pathtracker_sibling` (repaired
+  path tracker); order independence `kahn_schedule` (whole interleavings) from `kahn_done` /
+  `kahn_parked`.
 * proved counterexamples to the full-strength statement, with the responder's messages computed by
   `Responder.respondSpec` (honest by construction): `counterexample_skip_prefix`,
   `counterexample_root_not_found` (known findings).
-* NOT proved: the remaining region of `complete_partial` — requestor holds the root (non-empty local
-  prefix), not covered, responder holds the root, no needed block inside the skipped window: needs
-  the verifier replay over the traversal record (statement at the end of the file).
+* Together `local_complete`, `complete_remote_start`, `complete_prefix` cover every store pair
+  outside the two known-finding classes (covered / root not held / root held but not covered), at
+  the level of the loader with the whole honest response delivered before the retried load
+  (interleavings: `kahn_schedule`).  What is still not a theorem is listed at the end of the file.
 -/
 namespace GS.C02
 open GS.Loader GS.Requestor
@@ -229,26 +235,140 @@ example :
   · simp [respItems, skipSub]
     decide
 
-/-
-## NOT proved: the remaining region of the completeness theorem
+/-- **C02.complete, non-empty locally loaded prefix** (`Lemmas/LoaderReplay.lean`,
+    `Lemmas/LoaderReplayTrie.lean`).  The requestor holds the blocks of the first `N = |root :: pre'|`
+    links of the traversal and not the next one, `n`.  Script of the executor: the `N` links are
+    loaded from the local store (first conjunct: all answered with data, in order) and recorded in the
+    traversal record; the load of `n` misses locally (second conjunct); the loader goes online, the
+    request is sent with do-not-send-first-blocks = `N` (`C24.skip`); the honest response
+    `respItemsW rem lt [] N` (= `Responder.respondSpec` with `skip = N` transcribed to the pre-order
+    link tree: metadata for EVERY link of the responder's own traversal from the root, the links of
+    the window flagged present-not-sent or missing, blocks attached only beyond the window and only
+    once; rebuilt through `IngestResponse`: `honest_items_rebuiltW`) arrives and ends; `RetryLastLoad`
+    (third conjunct) first replays the record against the head of the response (`Verifier.VerifyNext`
+    inside `waitRemote`; a link the responder reports missing makes the verifier skip the recorded
+    subtree and arms the path tracker) and then continues with remote loads, and with local loads
+    below links the responder did not follow.
 
-  theorem complete_partial (lt : LT) (loc rem : store) (hWF : WF lt)
+    Hypotheses: `WF` (paths agree with the depth structure), the root's path is empty and no other
+    path is, the prefix's paths are in depth-first order (`PathsDFS`: distinct, a link before the
+    links below it, everything under a path prefix contiguous — what a selector traversal produces);
+    and the NEGATION OF THE TWO KNOWN-FINDING CLASSES: `hremroot` (the responder holds the root the
+    requestor holds — class `root-not-found-abort`) and `hwin` (every link among the first `N` entries
+    of the responder's own stream that the responder holds is held by the requestor — class
+    `skip-prefix-mismatch`, the oracle's `neededInWindow`; for the entries that lie in the local
+    prefix this is automatic).
+
+    Conclusion (fourth and fifth conjunct): the `N` local results followed by the results of the
+    continuation are exactly the reference traversal `refTrav rem lt loc none` — data iff the
+    requestor's growing store holds the block or the responder holds it and followed every ancestor,
+    RemoteMissingBlockErr (subtree skipped) otherwise — and the final store holds exactly what
+    `refTrav` says: every block obtained from the responder is stored. -/
+theorem complete_prefix (rem : Cid → Bool) (loc : List (Cid × Blk)) (root : LNode) (pre' : LT) (n : LNode) (post : LT)
+    (hwf : WF (root :: pre' ++ n :: post))
+    (hroot0 : root.path = []) (hne : ∀ m ∈ pre' ++ n :: post, m.path ≠ [])
+    (hdfs : PathsDFS ((root :: pre').map (·.path)))
+    (hheld : ∀ m ∈ root :: pre', holds loc m.cid = true) (hmiss : holds loc n.cid = false)
+    (hremroot : rem root.cid = true)
+    (hwin : ∀ it ∈ (respItemsW rem (root :: pre' ++ n :: post) [] (pre'.length + 1)).take (pre'.length + 1),
+        it.action = .present → holds loc it.link = true) :
+    let lt := root :: pre' ++ n :: post
+    let items := respItemsW rem lt [] (pre'.length + 1)
+    let s4 := afterResponseP loc (root :: pre') n (mdOf items) (blocksOfItems items)
+    (walk ({ store := loc } : Loader.State) (root :: pre')).1 = (root :: pre').map (fun m => (m, true)) ∧
+    (Loader.load (walk ({ store := loc } : Loader.State) (root :: pre')).2 n.path n.cid).2 =
+        .done { data := none, err := some (.missing n.cid n.path), loc := true } ∧
+    Loader.retry s4 = Loader.load { s4 with mra := none } n.path n.cid ∧
+    (root :: pre').map (fun m => (m, true)) ++ (walk { s4 with mra := none } (n :: post)).1 = (refTrav rem lt loc none).1 ∧
+    ∀ c, holds (walk { s4 with mra := none } (n :: post)).2.store c = holds (refTrav rem lt loc none).2 c :=
+  GS.Loader.complete_prefix rem loc root pre' n post hwf hroot0 hne hdfs hheld hmiss hremroot hwin
+
+/-- `complete_prefix` under the simpler sufficient condition that the responder holds every block
+    of the requestor's local prefix: its first `N` traversed links are then exactly the requestor's
+    `N` local loads, the skip window is exactly the prefix (`win_of_prefix_held`), no recorded
+    subtree is skipped by the verifier and the path tracker stays idle during the replay. -/
+theorem complete_prefix_held (rem : Cid → Bool) (loc : List (Cid × Blk)) (root : LNode) (pre' : LT) (n : LNode) (post : LT)
+    (hwf : WF (root :: pre' ++ n :: post))
+    (hroot0 : root.path = []) (hne : ∀ m ∈ pre' ++ n :: post, m.path ≠ [])
+    (hdfs : PathsDFS ((root :: pre').map (·.path)))
+    (hheld : ∀ m ∈ root :: pre', holds loc m.cid = true) (hmiss : holds loc n.cid = false)
+    (hrem : ∀ m ∈ root :: pre', rem m.cid = true) :
+    let lt := root :: pre' ++ n :: post
+    let items := respItemsW rem lt [] (pre'.length + 1)
+    let s4 := afterResponseP loc (root :: pre') n (mdOf items) (blocksOfItems items)
+    (walk ({ store := loc } : Loader.State) (root :: pre')).1 = (root :: pre').map (fun m => (m, true)) ∧
+    (Loader.load (walk ({ store := loc } : Loader.State) (root :: pre')).2 n.path n.cid).2 =
+        .done { data := none, err := some (.missing n.cid n.path), loc := true } ∧
+    Loader.retry s4 = Loader.load { s4 with mra := none } n.path n.cid ∧
+    (root :: pre').map (fun m => (m, true)) ++ (walk { s4 with mra := none } (n :: post)).1 = (refTrav rem lt loc none).1 ∧
+    ∀ c, holds (walk { s4 with mra := none } (n :: post)).2.store c = holds (refTrav rem lt loc none).2 c :=
+  GS.Loader.complete_prefix_held rem loc root pre' n post hwf hroot0 hne hdfs hheld hmiss hrem
+
+/-- non-vacuity of `complete_prefix`, outside `complete_prefix_held`: root 9 with children 1 (at
+    `0/1`, itself with children 3 and 4), 2 (at `0/2`, inline sibling) and 5 (at `1`).  The requestor
+    holds 9, 1, 3, 2 and loads 9, 1, 3 before missing 4; the responder holds 9, 3, 4, 5 but not 1 (a
+    block of the requestor's prefix) and not 2.  Its stream for skip 3 is 9, 1 (missing), 2 (missing),
+    5: the window 9, 1, 2 contains no block the requestor needs; the verifier skips the recorded
+    subtree of 1, the path tracker sends the load of 4 to the local store (missing: the responder
+    holds 4 but cannot reach it), 2 is answered locally, 5 is fetched.  And `respItemsW` agrees with
+    `respondSpec` (skip 3) on it. -/
+example :
+    let root : LNode := ⟨9, [], 0, 0, 0⟩
+    let pre' : LT := [⟨1, [0, 1], 1, 0, 0⟩, ⟨3, [0, 1, 0], 2, 0, 0⟩]
+    let n : LNode := ⟨4, [0, 1, 1], 2, 0, 0⟩
+    let post : LT := [⟨2, [0, 2], 1, 0, 0⟩, ⟨5, [1], 1, 0, 0⟩]
+    let rem : Cid → Bool := fun c => [9, 3, 4, 5].contains c
+    let loc : List (Cid × Blk) := [(9, 9), (1, 1), (3, 3), (2, 2)]
+    WF (root :: pre' ++ n :: post) ∧ (∀ m ∈ pre' ++ n :: post, m.path ≠ []) ∧
+    PathsDFS ((root :: pre').map (·.path)) ∧ (∀ m ∈ root :: pre', holds loc m.cid = true) ∧ holds loc n.cid = false ∧
+    rem root.cid = true ∧
+    (∀ it ∈ (respItemsW rem (root :: pre' ++ n :: post) [] 3).take 3, it.action = .present → holds loc it.link = true) ∧
+    (refTrav rem (root :: pre' ++ n :: post) loc none).1.map (fun x => (x.1.cid, x.2)) =
+      [(9, true), (1, true), (3, true), (4, false), (2, true), (5, true)] ∧
+    (respItemsW rem (root :: pre' ++ n :: post) [] 3).map (fun it => (it.link, it.action == .present, it.block.isSome)) =
+      (GS.Responder.respondSpec (.node 9 [.node 1 [.node 3 [], .node 4 []], .node 2 [], .node 5 []]) rem { skip := 3 } (fun _ => false)).1.map
+        (fun it => (it.cid, it.present, it.block)) := by
+  intro root pre' n post rem loc
+  refine ⟨?_, by decide, by decide, by decide, by decide, by decide, ?_, ?_, ?_⟩
+  · simp only [root, pre', n, post, List.cons_append, List.nil_append, WF, subOf, skipSub]
+    decide
+  · simp [root, pre', n, post, rem, loc, respItemsW, skipSub]
+    decide
+  · simp [root, pre', n, post, rem, loc, refTrav.eq_def, holds, storeGet, dead1, skipSub]
+  · simp [root, pre', n, post, rem, respItemsW, skipSub]
+    decide
+
+/-
+## Coverage of the completeness theorem, and what is still not a theorem
+
+  complete (lt : LT) (loc rem : store) (hWF : well-formed link tree)
       (hcls1 : ¬ (requestor holds the root ∧ responder lacks the root ∧ loc does not cover lt))   -- class root-not-found-abort
       (hcls2 : no link among the first N = |local prefix| links of the responder's own traversal lies
                beyond the requestor's local prefix, is held by the responder and not by the requestor)
                                                                                       -- class skip-prefix-mismatch
-      (hmsgs : msgs = the honest response `respondSpec` for (lt, rem, skip = N), in any batching) :
+      (hmsgs : msgs = the honest response `respondSpec` for (lt, rem, skip = N)) :
     the loads of the exchange are exactly `refTrav lt loc rem`, missing-block errors exactly for its
     undelivered links, every block obtained from the responder stored.
 
-Proved instances: `local_complete` (loc covers lt) and `complete_remote_start` (N = 0: the requestor
-lacks the root; includes the case that the responder lacks it too).  Open: N > 0 — after the local
-prefix the loader re-verifies the traversal record against the response (`traversalrecord.Verifier`);
-the proof needs the correspondence between the path trie built by `RecordNextStep` and the
-pre-order link tree.  The excluded classes are inhabited: `counterexample_skip_prefix`,
-`counterexample_root_not_found`.  What stands in for the proof in the open region is the
-reference-traversal oracle over the real code (streams `loader`, `requestor`, `exchange`; every
-2-colouring of small DAGs in the thorough tier).
+is proved by cases on the local prefix: `local_complete` (loc covers lt: N = |lt|, nothing sent),
+`complete_remote_start` (N = 0: the requestor lacks the root; includes the case that the responder
+lacks it too) and `complete_prefix` (0 < N < |lt|).  The excluded classes are inhabited:
+`counterexample_skip_prefix`, `counterexample_root_not_found`.
+
+Still not theorems (evidence: the reference-traversal oracle over the real code in the streams
+`loader`, `requestor`, `exchange`, plus model/implementation correspondence):
+* `respItemsW` / `respItems` = `Responder.respondSpec` is shown on examples, not for all trees (needs
+  a flattening of the responder model's labelled tree `Responder.LT` to the pre-order list `LT`);
+* `complete_remote_start` / `complete_prefix` are stated for the loader driven by `walk` with the
+  whole response ingested as ONE message before the retried load and the response closed; other
+  batchings and interleavings are covered by `kahn_schedule` (any valid schedule = messages first),
+  except that the closing `SetRemoteOnline(false)` is not an event of those schedules; the lift to
+  the event stream of `Requestor.exchange` (block hooks, progress counts) is `C01.exchange_walk`
+  for arbitrary messages, not re-stated here for the honest ones;
+* a user-supplied do-not-send-first-blocks value larger than `N` (the oracle treats it as
+  "the user vouches for the blocks": outside the property);
+* `PathsDFS` is a hypothesis on the link tree (true of what `harness/dag` and go-ipld-prime produce:
+  absolute paths of a depth-first walk), not derived from a selector semantics.
 -/
 
 end GS.C02
